@@ -154,6 +154,10 @@ where
             v.iter().enumerate().map(|(i, x)| (i as f64 + 1.0) * x).sum::<f64>() + 1000.0 * v.len() as f64
         });
         out.push((format!("{}:map_axis_skipnan_mut_{}", tag, ax), Val::F(r.iter().cloned().collect())));
+        // the same with a mapping that depends on the order in which the lane presents its elements
+        let mut a = make();
+        let r = a.map_axis_skipnan_mut(Axis(ax), |lane| lane.iter().enumerate().map(|(i, x)| (i as f64 + 1.0) * key(&A::from_not_nan(x.clone()))).sum::<f64>());
+        out.push((format!("{}:map_axis_skipnan_mut_in_lane_order_{}", tag, ax), Val::F(r.iter().cloned().collect())));
     }
 }
 
@@ -601,6 +605,10 @@ fn sig_for(c: &Case, canonical: bool) -> Sig {
                     s.iter().enumerate().map(|(i, x)| (i as f64 + 1.0) * x).sum::<f64>() + 1000.0 * s.len() as f64
                 });
                 out.push((format!("f64nan:map_axis_skipnan_mut_{}", ax), Val::F(r.iter().cloned().collect())));
+                let mut h = Host::new(&c.shape, &cn.nan, &l, 777.0);
+                let mut v = h.view_mut();
+                let r = v.map_axis_skipnan_mut(Axis(ax), |lane| lane.iter().enumerate().map(|(i, x)| (i as f64 + 1.0) * keyf(&x.raw())).sum::<f64>());
+                out.push((format!("f64nan:map_axis_skipnan_mut_in_lane_order_{}", ax), Val::F(r.iter().cloned().collect())));
                 let mut h = Host::new(&c.shape, &cn.opt, &l, Some(-99));
                 let mut v = h.view_mut();
                 let r = v.map_axis_skipnan_mut(Axis(ax), |lane| {
